@@ -18,7 +18,7 @@ def opcodes():
     return _ops
 
 def vm_job(prefix, op, slots=(), l0='NONE', g0='NONE', post=0, audit=False, strict_leak=False, extra=None, alen=2, acap=4,
-           timeout=300, overflow=False, group='vm_step', unwind=18, desc=None):
+           timeout=1200, overflow=False, group='vm_step', unwind=18, desc=None):
     """slots: kinds of S0..S2 (bottom..top), names from K or 'ALIAS<n>' (n = slot index 0..4: L0,G0,S0,S1,S2)."""
     def kk(n):
         return K['ALIAS0'] + int(n[5:]) if n.startswith('ALIAS') and n != 'ALIAS0' or n == 'ALIAS0' else K[n]
@@ -150,7 +150,7 @@ def matrix_jobs(prefix, tier, audit, group):
             if not (op == 'OP_STORE_LOCAL' and ex):   # the constant-slot store_local variants are cheap
                 continue
         jobs.append(vm_job(prefix, op, slots, l0=l0, g0=g0, extra=ex, audit=audit, strict_leak=(audit and (op, slots) not in NO_STRICT), overflow=(op in DIVOPS), group=group,
-                           timeout=900 if tier == 'thorough' else 300))
+                           timeout=1200))
     # element stores with a concrete index (cheap: the released element's tag stays a constant)
     for idx in (0, 1, 2, -1):
         jobs.append(vm_job(prefix, 'OP_ARR_REMOVE', ('ARR_STR', 'INT'), extra={'FIX_I3': idx}, audit=audit, strict_leak=audit, group=group))
